@@ -780,7 +780,7 @@ func c16MapResultsMade(c *Ctx) {
 			if !isNilConst(rv[1]) {
 				continue
 			}
-			made := derivesAll(rv[0], func(x ssa.Value) bool {
+			made := derivesAll(resolveLocalField(rv[0]), func(x ssa.Value) bool {
 				switch y := x.(type) {
 				case *ssa.MakeMap:
 					return true
